@@ -257,6 +257,7 @@ POOLS = [
     {"i1": 2**63, "i0": -1, "f1": 5e-324, "sa": "\"\\/\b\f\n\r\t\u0000", "s": "a.b"},
     {"i1": 2**31, "i0": 0, "f1": -0.0, "sa": "x" * 10000, "s": " "},
     {"i1": 10**40, "i0": -(2**63) - 1, "f1": 0.1, "sa": "  \x7f", "s": "0"},
+    {"i1": 2**1024, "i0": -(10**400), "f1": 2.2250738585072014e-308, "sa": "\u2028\u2029", "s": "\ufeff"},   # beyond the double range
     {"i1": -1, "i0": 1, "f1": 1e-7, "sa": "\ud83d", "s": "\udfff x"},     # lone surrogates (JSON carries them as \\uXXXX escapes)
 ]
 
@@ -292,7 +293,12 @@ def rt_edge(spec, position, edge, variant, pool):
     try:
         res.write_raw(copy.deepcopy(seq.wrap(position, pre)))
         obj = res.new_object()
-        target = seq.navigate(obj, position)
+        try:
+            target = seq.navigate(obj, position)
+        except Exception as e:  # noqa: BLE001
+            problems.append({"aspect": "roundtrip", "detail": f"a collection cannot read the JSON data {str(pre)[:120]} present in its "
+                                                              f"resource: {type(e).__name__}: {str(e)[:160]}"})
+            return problems
         obs = realize.perform(target, edge["lab"], variant, pool)
         ok = [o for o in edge["outs"] if o["ret"]["t"] != "!"]
         if obs[0] == "err":
@@ -358,7 +364,7 @@ def check_C12(tier):
                        "insert, +=, constructor) of MC_PyOps with all bounded JSON values (atoms null/bool/int/float/"
                        "str, nested to depth 2) executed at root and nested positions; a FRESH object on the same "
                        "resource must read back an equal value with the same JSON type at every leaf; abstract atoms "
-                       "are additionally concretised from pools of boundary scalars (2**70, 5e-324, astral/escape-heavy "
+                       "are additionally concretised from pools of boundary scalars (2**70, 2**1024, -(10**400), 5e-324, astral/escape-heavy "
                        "strings, 10 kB strings, empty keys)")
     run.assumptions += ["structure and leaf types decided on the TLC-enumerated edges; the byte-level encoding of "
                         "scalars is exercised through the concretisation pools only (sampling, see DESIGN 9)",
@@ -413,7 +419,7 @@ def check_C12(tier):
 def _rand_value(rnd, depth):
     r = rnd.random()
     if depth <= 0 or r < 0.35:
-        return rnd.choice([None, True, False, 0, 1, -1, 2**64 + 3, -2**80, 0.5, -0.0, 1e300, 5e-324, "", "a", "é",
+        return rnd.choice([None, True, False, 0, 1, -1, 2**64 + 3, -2**80, 2**1030 + 1, -(10**330), 0.5, -0.0, 1e300, 5e-324, "", "a", "é",
                            "\U0001F600", "\x00", "\\u0041", '"', "a b", "0"])
     if r < 0.7:
         return {rnd.choice(["", "a", "b", "k k", "é", "0", "\n"]): _rand_value(rnd, depth - 1)
